@@ -157,8 +157,51 @@ impl FixtureDatabase {
                 }
                 Stmt::Try(try_stmt) => {
                     self.collect_local_variables(&try_stmt.body, line_index, local_vars);
+                    for handler in &try_stmt.handlers {
+                        let rustpython_parser::ast::ExceptHandler::ExceptHandler(h) = handler;
+                        // `except Error as name:` binds a local
+                        if let Some(ref name) = h.name {
+                            let line =
+                                self.get_line_from_offset(h.range.start().to_usize(), line_index);
+                            local_vars.insert(name.to_string(), line);
+                        }
+                        self.collect_local_variables(&h.body, line_index, local_vars);
+                    }
                     self.collect_local_variables(&try_stmt.orelse, line_index, local_vars);
                     self.collect_local_variables(&try_stmt.finalbody, line_index, local_vars);
+                }
+                // `import x` / `from m import x` inside the function bind locals
+                Stmt::Import(import_stmt) => {
+                    let line =
+                        self.get_line_from_offset(import_stmt.range.start().to_usize(), line_index);
+                    for alias in &import_stmt.names {
+                        let name = alias.asname.as_ref().unwrap_or(&alias.name);
+                        local_vars.insert(name.to_string(), line);
+                    }
+                }
+                Stmt::ImportFrom(import_from) => {
+                    let line =
+                        self.get_line_from_offset(import_from.range.start().to_usize(), line_index);
+                    for alias in &import_from.names {
+                        let name = alias.asname.as_ref().unwrap_or(&alias.name);
+                        local_vars.insert(name.to_string(), line);
+                    }
+                }
+                // a nested function or class definition binds its name
+                Stmt::FunctionDef(func_def) => {
+                    let line =
+                        self.get_line_from_offset(func_def.range.start().to_usize(), line_index);
+                    local_vars.insert(func_def.name.to_string(), line);
+                }
+                Stmt::AsyncFunctionDef(func_def) => {
+                    let line =
+                        self.get_line_from_offset(func_def.range.start().to_usize(), line_index);
+                    local_vars.insert(func_def.name.to_string(), line);
+                }
+                Stmt::ClassDef(class_def) => {
+                    let line =
+                        self.get_line_from_offset(class_def.range.start().to_usize(), line_index);
+                    local_vars.insert(class_def.name.to_string(), line);
                 }
                 _ => {}
             }
